@@ -7,7 +7,9 @@ S3  Lean: Model/Abuf.lean (ncmpii_in_swapn, in-place-swap decision and the three
 S4  harness/c13_buf.c against the real library: random histories of attach / detach / bput / iput /
     iget / blocking put+get / wait / cancel with request sizes on both sides of the 4096-byte
     in-place-swap threshold, the three nc_in_place_swap settings, swapping and converting types,
-    derived buffer types with gaps, imap; after every op the attached-buffer table of `struct NC`,
+    derived buffer types with gaps, imap; ncmpi_put_vard / get_vard (independent and _all; filetype = subarray, nested
+    hvector or contiguous run; fixed and record variables; all buffer layouts; the exits without I/O: NC_EIOMISMATCH,
+    NC_ETYPE_MISMATCH, zero-length forms; a filetype of size 0 is probed in a process of its own); after every op the attached-buffer table of `struct NC`,
     inq_buffer_usage/size, the buffer handed to MPI-IO (PMPI interception / NC_lead_req) and the swap
     flag are diffed with the model; the property oracle checks guard zones, bit-identical user
     buffers after put / wait / cancel, reads touching only selected bytes, bput data = posting-time
@@ -22,6 +24,18 @@ XSZ = [1, 2, 4, 4, 8, 8, 4]
 VLEN = [16000, 8192, 8192, 4096, 4096, 4096, 64]      # vb keeps its last 384 bytes for the sentinel read
 NATIVE = [5, 3, 1, 4, 2, 6, 1]
 MSZ = {1: 4, 2: 8, 3: 2, 4: 4, 5: 1, 6: 8}
+VXSZ = XSZ + [8, 4]                                   # … plus the record variables rd (double) and ri (int)
+VNATIVE = NATIVE + [2, 1]
+EM5_OK = True          # set by the probe: may the stream use vard calls whose filetype has size 0?
+
+# ncmpi_get_vard_all / get_vard / put_vard_all with a committed filetype of size 0 (MPI_Type_contiguous(0, …)): a zero-length
+# request.  Run in a process of its own because getput_vard reads `filetype_size` before assigning it on this exit.
+PROBE_EM5 = ['CASE 0 0',
+             'R 0 5 0 1 0 0 64 4 d 0 5 1 31 8 1 1 5 0 0 0 1 0 8 1 8',
+             'R 1 5 0 1 1 0 64 2 d 0 0 1 8 16 0 0 5 0 0 0 1 0 16 1 4',
+             'P 2 5 0 1 1 0 64 2 d 0 0 1 40 16 0 1 5 0 0 0 1 0 16 1 4',
+             'R 3 5 0 1 1 0 8192 4 d 0 4 1 0 1024 1 1 5 0 0 0 1 0 256 4 8',
+             'END']
 
 
 class CaseGen:
@@ -31,6 +45,7 @@ class CaseGen:
         self.lines = ['CASE %d %d' % (idx, self.hint)]
         self.meta = [dict(op='CASE')]
         self.next = [0] * 7                 # next free element per 1-D variable / next free row of v2
+        self.nextrec = {7: 0, 8: 0}         # next free record of the record variables (vard puts)
         self.attached = None                # spec: size of the attached buffer
         self.pend = {}                      # h -> dict(op, nbytes)  (spec's pending set, posting order)
         self.order = []
@@ -126,6 +141,91 @@ class CaseGen:
         self.meta.append(m)
         return True
 
+    def vard_op(self, op):
+        """ncmpi_put_vard / get_vard (independent and _all): filetype = subarray / nested hvector / contiguous run built
+        on the variable's element type, fixed and record variables, every buffer layout, sizes around 4096 bytes,
+        and the exits without I/O (NC_EIOMISMATCH, NC_ETYPE_MISMATCH, three zero-length forms)"""
+        rng = self.rng
+        var = rng.choice([0, 1, 2, 2, 3, 4, 5, 6, 7, 7, 8, 8])
+        xsz = VXSZ[var]
+        mt = 0 if rng.chance(3, 4) else rng.choice([1, 2, 3, 4, 6])
+        eff = mt if mt else VNATIVE[var]
+        need_convert = 1 if eff != VNATIVE[var] else 0
+        need_swap = 0 if (var == 0 and eff == 5) else 1
+        bl = rng.choice([0, 0, 1, 4, 4, 4, 5, 2, 6, 7, 8, 8])
+        if bl == 1 and mt != 0:
+            bl = 0
+        em = 0 if rng.chance(5, 6) else rng.choice([1, 1, 2, 2, 3, 4, 5])
+        if bl == 1 and em in (1, 4):
+            em = 2
+        if em == 5 and not EM5_OK:
+            em = 3          # a filetype of size 0 is exercised by the probe only (finding vard-zero-size-filetype-uninitialized)
+        coll = rng.below(2)
+        contiguous_sel = False
+        if var <= 5:
+            target = rng.choice([8, 24, 64, 1024, 4088, 4096, 4104, 8192])
+            cnt = max(4, (max(1, target // xsz) + 3) // 4 * 4)
+            if em == 0 and op == 'P':
+                s = self.region(var, cnt)
+                if s is None:
+                    return False
+            else:
+                s = rng.below(VLEN[var] - cnt + 1) if em == 0 else rng.below(64)
+            sub = ([s], [cnt]); nelems = cnt; contiguous_sel = True
+        elif var == 6:
+            rows = rng.choice([1, 2, 4, 16, 17, 33])
+            cols = 64 if rng.chance(1, 2) else rng.choice([4, 16, 32])
+            if em == 0 and op == 'P':
+                s = self.region(6, rows)
+                if s is None:
+                    return False
+            else:
+                s = rng.below(64 - rows + 1)
+            c0 = 0 if cols == 64 else rng.below(64 - cols + 1)
+            sub = ([s, c0], [rows, cols]); nelems = rows * cols; contiguous_sel = (cols == 64 or rows == 1)
+        else:
+            # record variables: rd DOUBLE[t][8], ri INT[t][6][8]
+            per = 8 if var == 7 else 48
+            nrec = rng.choice([1, 1, 2, 3, 3] + ([63, 64, 65] if var == 7 else [21, 22]))
+            if op == 'R' or em != 0:
+                nrec = min(nrec, 3); s = rng.below(3 - nrec + 1)          # the three background records
+            else:
+                s = self.nextrec[var]
+                if s + nrec > 150:
+                    return False
+                self.nextrec[var] += nrec
+            if var == 7:
+                cols = 8 if rng.chance(1, 2) else 4
+                c0 = 0 if cols == 8 else rng.below(5)
+                sub = ([s, c0], [nrec, cols]); nelems = nrec * cols
+                contiguous_sel = (nrec == 1)
+            else:
+                full = rng.chance(1, 2)
+                ys, yc, xs, xc = (0, 6, 0, 8) if full else (rng.below(3), rng.choice([1, 2, 4]), rng.below(5), 4)
+                sub = ([s, ys, xs], [nrec, yc, xc]); nelems = nrec * yc * xc
+                contiguous_sel = (nrec == 1 and (full or yc == 1))
+        ft = rng.choice([0, 0, 1, 1, 2]) if contiguous_sel else rng.choice([0, 1])
+        contig = 1 if bl in (0, 1, 4, 8) else 0
+        nbytes = nelems * xsz
+        pertype = {0: 1, 1: 1, 2: nelems, 4: 4, 5: 1, 6: nelems, 7: 4, 8: 4}[bl]
+        bufcount = {0: nelems, 1: 0, 2: 1, 4: nelems // 4, 5: nelems, 6: 1, 7: nelems // 4, 8: nelems // 4}[bl]
+        if em == 1:
+            bufcount += 1
+        if em == 4:
+            bufcount = 0
+        h = self.nexth
+        if h >= 250:
+            return False
+        self.nexth += 1
+        toks = [op, h, 5, need_convert, need_swap, contig, 0, nbytes, var, 'd', mt, bl, 1] + list(sub[0]) + list(sub[1])
+        toks += [ft, coll, em,
+                 1 if em == 3 else 0, 0 if em in (3, 5) else nbytes, 0 if em in (3, 5) else nelems, 0 if em == 2 else 1,
+                 1 if bl == 1 else 0, bufcount, pertype, xsz]
+        self.lines.append(' '.join(str(t) for t in toks))
+        self.meta.append(dict(op=op, h=h, nbytes=nbytes, need_swap=need_swap, need_convert=need_convert, contig=contig, imap=0,
+                              vard=True, spec_err={1: -209, 2: -230}.get(em, 0), spec_usage=self.usage(), nonlifo=self.nonlifo))
+        return True
+
     def usage(self):
         if self.attached is None:
             return None
@@ -198,8 +298,10 @@ class CaseGen:
                 self.data_op('B')
             elif r < 9:
                 self.data_op(rng.choice(['I', 'I', 'G']))
-            elif r < 12:
+            elif r < 11:
                 self.data_op(rng.choice(['P', 'P', 'R']))
+            elif r < 12:
+                self.vard_op(rng.choice(['P', 'P', 'R']))
             elif r < 14 and self.attached is not None:
                 self.data_op('B')
             else:
@@ -255,6 +357,36 @@ def fixed_cases(first):
           dict(op='W', spec_err=0, n=2, spec_usage=8192, nonlifo=True), dict(op='X', spec_err=0, n=1, spec_usage=0, nonlifo=True), dict(op='END')]
     cases.append((L3, M3, {}))
     cases.append((L, M, {}))
+    # put_vard / get_vard (seeded change C13-4: swap-back counted instances of buftype instead of elements): in-place
+    # swapped buffers described by contiguous derived types, independent and collective, fixed and record variables,
+    # every filetype construction, then the exits without I/O
+    def vline(op, h, var, bl, st, ct, ft, coll, em):
+        nel = 1
+        for c in ct:
+            nel *= c
+        xsz = VXSZ[var]
+        pertype = {0: 1, 1: 1, 2: nel, 4: 4, 5: 1, 6: nel, 7: 4, 8: 4}[bl]
+        bc = {0: nel, 1: 0, 2: 1, 4: nel // 4, 5: nel, 6: 1, 7: nel // 4, 8: nel // 4}[bl]
+        bc = bc + 1 if em == 1 else (0 if em == 4 else bc)
+        ns = 0 if var == 0 else 1
+        toks = [op, h, 5, 0, ns, 1 if bl in (0, 1, 4, 8) else 0, 0, nel * xsz, var, 'd', 0, bl, 1] + st + ct + [
+            ft, coll, em, 1 if em == 3 else 0, 0 if em in (3, 5) else nel * xsz, 0 if em in (3, 5) else nel, 0 if em == 2 else 1,
+            1 if bl == 1 else 0, bc, pertype, xsz]
+        return (' '.join(str(t) for t in toks),
+                dict(op=op, h=h, nbytes=nel * xsz, vard=True, spec_err={1: -209, 2: -230}.get(em, 0), spec_usage=None, nonlifo=False))
+    for k, hint in ((5, 0), (6, 1)):
+        big = (hint == 0)
+        n4, n8 = (2048, 1024) if big else (16, 8)
+        ops = [vline('P', 0, 2, 4, [0], [n4], 0, 1, 0), vline('P', 1, 4, 8, [0], [n8], 1, 0, 0),
+               vline('P', 2, 2, 0, [n4], [n4], 2, 1, 0), vline('P', 3, 7, 4, [3, 0], [65 if big else 1, 8], 0, 1, 0),
+               vline('P', 4, 8, 8, [3, 0, 0], [22 if big else 1, 6, 8], 1, 0, 0), vline('P', 5, 6, 4, [0, 0], [33 if big else 1, 64], 0, 0, 0),
+               vline('P', 6, 3, 1, [0], [n4], 2, 0, 0), vline('P', 7, 2, 5, [2 * n4], [n4], 1, 1, 0),
+               vline('P', 8, 2, 4, [0], [n4], 0, 1, 1), vline('P', 9, 2, 4, [0], [n4], 0, 0, 2), vline('P', 10, 2, 4, [0], [n4], 1, 1, 3),
+               vline('P', 11, 2, 4, [0], [n4], 0, 1, 4), vline('P', 12, 4, 8, [0], [n8], 1, 0, 1),
+               vline('R', 13, 2, 4, [0], [n4], 0, 1, 0), vline('R', 14, 4, 8, [0], [n8], 1, 0, 0), vline('R', 15, 7, 4, [0, 0], [3, 8], 1, 1, 0),
+               vline('R', 16, 2, 4, [0], [n4], 0, 0, 1), vline('R', 17, 2, 0, [0], [n4], 0, 1, 2), vline('R', 18, 2, 4, [0], [n4], 0, 0, 3)]
+        cases.append((['CASE %d %d' % (first + k, hint)] + [o[0] for o in ops] + ['END'],
+                      [dict(op='CASE')] + [o[1] for o in ops] + [dict(op='END')], {}))
     return cases
 
 
@@ -305,7 +437,10 @@ def judge_case(out, metas):
                 return ('einsuffbuf-with-free-space', '%s: the pending buffered puts leave room for %d bytes (spec usage %s)'
                         % (line.split(' | ')[0], m['nbytes'], m['spec_usage'] - m['nbytes'] if m['spec_usage'] is not None else None))
             return ('bput-error-code', '%s expected err=%d' % (line.split(' | ')[0], m['spec_err']))
-        if m['op'] in 'PRIG' and len(m['op']) == 1 and err != 0:
+        if m.get('vard'):
+            if err != m['spec_err']:
+                return ('vard-error-code', '%s expected err=%d' % (line.split(' | ')[0], m['spec_err']))
+        elif m['op'] in 'PRIG' and len(m['op']) == 1 and err != 0:
             return ('data-op-error', line.split(' | ')[0])
         su = m.get('spec_usage')
         want = ('E-217' if su is None else str(su))
@@ -339,7 +474,7 @@ def run_check(tier, seed):
         'the occupy table is modelled by its live prefix occupy_table[0..tail-1]; table growth by NC_ABUF_DEFAULT_TABLE_SIZE (realloc) is memory management and not modelled',
         'a pending iget that is never named is kept in every case so that the extract_reqs shortcuts (C02 finding F4) cannot complete requests the script did not name',
     ]
-    V.cov['trusted_base'] = TRUSTED_BASE_COMMON + ['harness/c13_buf.c (incl. its PMPI wrappers of MPI_File_write*) and the generator in checks/c13.py (differential, not proof)',
+    V.cov['trusted_base'] = TRUSTED_BASE_COMMON + ['harness/c13_buf.c (incl. its PMPI wrappers of MPI_File_write* / MPI_File_read*) and the generator in checks/c13.py (differential, not proof)',
                                                    'Lean driver lean/Driver/C13.lean (parsing/printing only)']
     tree = build_impl('plain')
     wd = workdir('c13')
@@ -374,6 +509,24 @@ def run_check(tier, seed):
             return V.finish()
         ncases = 400 if tier == "quick" else 8000
         lines, metas = [], []
+        # probe: vard with a filetype of size 0, in its own process
+        global EM5_OK
+        pscript = os.path.join(wd, 'probe.txt'); pout = os.path.join(wd, 'probe.out')
+        open(pscript, 'w').write('\n'.join(PROBE_EM5) + '\n')
+        prc, pso, pse = mpirun(1, [exe, pscript, pout, wd], timeout=120)
+        plines = [l for l in open(pout).read().split('\n') if l] if os.path.exists(pout) else []
+        pmod = subprocess.run([drv], input='\n'.join(PROBE_EM5) + '\n', stdout=subprocess.PIPE, stderr=subprocess.PIPE, text=True).stdout.split('\n') if os.path.exists(drv) else []
+        pmod = [l for l in pmod if l]
+        EM5_OK = (prc == 0 and plines == pmod)
+        probe_fail = None
+        if not EM5_OK:
+            done = len([l for l in plines if l[:2] in ('R ', 'P ')])
+            probe_fail = ('vard-zero-size-filetype-uninitialized',
+                          'vard call with a committed filetype of size 0 (zero-length request): %s; first differing / missing answer is op %d of the probe: %s'
+                          % ('harness rc=%s %s' % (prc, ' '.join((pse or pso or '').split())[-200:]) if prc != 0 else 'answers differ from the model',
+                             done, PROBE_EM5[min(done + 1, len(PROBE_EM5) - 1)]),
+                          dict(script=PROBE_EM5, rc=prc, answers=plines, model=pmod))
+        log('[S4] probe (vard, filetype of size 0): %s' % ('ok' if EM5_OK else 'FAILS'))
         # unit: ncmpii_in_swapn on random byte strings
         nsw = 200 if tier == 'quick' else 3000
         for k in range(nsw):
@@ -412,6 +565,19 @@ def run_check(tier, seed):
             dist[tg] = dist.get(tg, 0) + 1
             if 'xbuf=user' in a and 'swapped=1' in a:
                 dist['in-place-swap'] = dist.get('in-place-swap', 0) + 1; nontrivial.add(a)
+            if ' cnt=' in a:
+                dist['vard-put'] = dist.get('vard-put', 0) + 1
+                if 'xbuf=user' in a and 'swapped=1' in a:
+                    dist['vard-put-in-place-swap'] = dist.get('vard-put-in-place-swap', 0) + 1
+                    c = field(a, 'cnt')
+                    if c not in (None, '-'):
+                        nontrivial.add(a)
+                if 'err=0' not in a:
+                    dist['vard-put-refused'] = dist.get('vard-put-refused', 0) + 1; nontrivial.add(a)
+            if a.startswith('R ') and ' xbuf=' in a:
+                dist['vard-get'] = dist.get('vard-get', 0) + 1
+                if 'err=0' not in a:
+                    dist['vard-get-refused'] = dist.get('vard-get-refused', 0) + 1; nontrivial.add(a)
             if a.startswith('B ') and 'err=-219' in a:
                 dist['bput-refused'] = dist.get('bput-refused', 0) + 1; nontrivial.add(a)
             if ('[0.' in a or ' 0.' in a.split('abuf=')[-1].split(']')[0]) and 'abuf=none' not in a:
@@ -434,11 +600,15 @@ def run_check(tier, seed):
         V.cov['traces_validated_against_impl'] = len(cnd) - len(tie_diffs)
         V.cov['rule'] = ('random histories of attach/detach/inq/bput/iput/iget/blocking put+get/wait_all/cancel (explicit shuffled lists, NC_REQ_ALL/GET/PUT) over 7 variables of 6 external types; '
                          'request sizes 8..8192 bytes around NC_BYTE_SWAP_BUFFER_SIZE=4096, hints nc_in_place_swap=auto/enable/disable, native / converting memory types, contiguous / MPI_Type_vector buffers with gaps, imap (transposed), varn; '
+                         'ncmpi_put_vard/get_vard and _all with filetypes (subarray / nested hvector / contiguous run on the element type) on fixed and record variables, all buffer layouts, sizes around 4096 bytes, and the exits NC_EIOMISMATCH / NC_ETYPE_MISMATCH / zero-length (error code, buffer handed to MPI-IO, the count MPI_File_write_at receives, user buffer byte for byte, file unchanged by refused puts, reads fill exactly the selection); '
                          'half of the cases complete requests in reverse posting order (the histories of usage_eq_pending_partial), the others in arbitrary order; plus ncmpii_in_swapn on random byte strings for element sizes 0..16. '
                          'non-trivial = a result line with an in-place swapped user buffer, a refused bput, a hole (freed but unreclaimed entry) in the occupy table, or a swapn string; distinct = distinct result lines')
         V.cov['distribution'] = dist
         V.cov['samples'] = [lines[0], lines[1]] + _case_lines(lines, 0)[:9] + _case_lines(lines, 5)[:8]
         new_fail = 0
+        if probe_fail:
+            fails.insert(0, probe_fail)
+            dist['deviation:' + probe_fail[0]] = 1
         for sig, desc, rep in fails:
             if V.failing_input(sig, desc, rep, tag='buf%d' % new_fail):
                 new_fail += 1
